@@ -39,6 +39,7 @@ class SimController:
         self.silent_codes: set[str] = set()
         self.n_replies = 0
         self.on_reply = None
+        self.on_sched_change = None
 
     # -- outbound ------------------------------------------------------------------------
     def rp(self, dst: str, code: str, payload: str, verb: str = "RP") -> str:
@@ -223,9 +224,12 @@ class SimController:
             try:
                 self.sched[key] = unpack_schedule([st[i] for i in range(1, total + 1)])
                 self.sched_ver += 2
+                if self.on_sched_change is not None:
+                    self.on_sched_change(key, self.sched[key])
             except Exception:  # noqa
                 pass
-        return self.rp(src, "0404", f"{z}{kind}0008{0:02X}{frag:02X}{total:02X}", " I")
+        # the real acknowledgement echoes the fragment's length byte, and carries no data (see the 0404 parser's comments)
+        return self.rp(src, "0404", f"{z}{kind}0008{n:02X}{frag:02X}{total:02X}", " I")
 
     # -- fault log (0418) ---------------------------------------------------------------------
     def entry_payload(self, idx: int, e: dict) -> str:
